@@ -88,6 +88,7 @@ def run(ctx):
     judge_bad = lossy_cases = lossy_tags = skipped = ign_cases = 0
     multi = nonascii = 0
     capi_cmp = capi_bad = late_cases = 0
+    docs_by_set = {}
     names_total = arr_bad = arr_bad_cases = 0
     arr_bad_ids = []
     for line in out.split("\n"):
@@ -123,6 +124,7 @@ def run(ctx):
                 ctx.violation("judge", "C18 C API (c_lib.rs ts_tagger_tag) disagrees with the Rust API on the same input: " + kv["capi"][:200],
                               {"case": cid, "spec": specs.get(cid, ""), "result": kv},
                               fingerprint={"queryset": qid, "clause": "capi"})
+        docs_by_set[qid] = docs_by_set.get(qid, 0) + int(kv.get("withdocs", 0))
         names_total += int(kv.get("names", 0))
         if int(kv.get("arrbad", 0)) > 0:
             arr_bad += int(kv["arrbad"])
@@ -179,6 +181,7 @@ def run(ctx):
                                      "QueryCursor::matches streams of all explored sources"},
         "c_api": {"compared": capi_cmp, "equal": capi_cmp - capi_bad,
                   "what": "ts_tagger_new/add_language/tag + ts_tags_buffer_* read through the C struct layout of tags.h vs the Rust iterator"},
+        "tags_with_docs_by_query_set": docs_by_set,
         "explorer_summary": summary,
         "model_variants_matching_all_cases": matching,
         "correspondence": {"compared": corr_cases, "equal": corr_cases - (0 if matching else corr_bad_asis)},
